@@ -52,6 +52,7 @@ type Contract struct {
 	SpawnMod []ast.Expr // what goroutines started by this function may modify (default: nothing)
 	Observe  map[string]string // obligation-name suffix -> why a failure of it is outside the property (reported, not alarmed)
 	Devirt   map[string]string
+	Dispatch map[string][]string // closed-world dispatch: interface name -> the implementing types considered
 	ModText  []string
 	LoopInvs map[int][]Clause
 	LoopMods map[int][]ast.Expr // loop N modifies ...: what one iteration may change on the heap (default: syntactic effects)
@@ -150,7 +151,7 @@ var declKeywords = map[string]bool{"func": true, "extern": true, "field": true, 
 	"ghost": true, "axiom": true, "monitor": true, "lemma": true, "devirtall": true}
 var clauseKeywords = map[string]bool{"prop": true, "params": true, "results": true, "recv": true, "requires": true, "ensures": true,
 	"modifies": true, "loop": true, "on": true, "instantiate": true, "strings": true, "inline": true, "mode": true, "decreases": true,
-	"safety": true, "invariant": true, "protects": true, "self": true, "vars": true, "assumes": true, "replay": true, "allocates": true, "devirt": true, "spawn": true, "rely": true, "observation": true, "select": true}
+	"safety": true, "invariant": true, "protects": true, "self": true, "vars": true, "assumes": true, "replay": true, "allocates": true, "devirt": true, "dispatch": true, "spawn": true, "rely": true, "observation": true, "select": true}
 
 // desugarSpec rewrites ==> and <==> (lowest precedence, right associative) into calls.
 func desugarSpec(s string) string {
@@ -740,6 +741,15 @@ func parseContractFile(path, pkgPath, pkgName string) (*ContractFile, error) {
 					cur.Devirt = map[string]string{}
 				}
 				cur.Devirt[strings.TrimSpace(parts[0])] = strings.TrimSpace(parts[1])
+			case "dispatch":
+				parts := strings.Split(rest, "=>")
+				if len(parts) != 2 {
+					return nil, fmt.Errorf("%s:%d: dispatch Iface => *T1, *T2", path, rl.line)
+				}
+				if cur.Dispatch == nil {
+					cur.Dispatch = map[string][]string{}
+				}
+				cur.Dispatch[strings.TrimSpace(parts[0])] = fieldsComma(parts[1])
 			case "strings":
 				cur.SMTStr = strings.Contains(rest, "smt")
 			case "inline":
